@@ -1,6 +1,8 @@
 package agent
 
 import (
+	"context"
+
 	"github.com/postalsys/muti-metroo/internal/identity"
 	"github.com/postalsys/muti-metroo/internal/peer"
 	"github.com/postalsys/muti-metroo/internal/protocol"
@@ -118,4 +120,57 @@ func harnessC39OwnAndRelayed() {
 		verif_assert(nA == 1 && toA == A, "C39/relayed-answer-misdelivered")
 		verif_assert(len(ch) == 0, "C39/own-request-answered-by-foreign-response")
 	}
+}
+
+// requests that one agent originates concurrently: a request whose send fails
+// while others are in flight must not make a later request reuse an identifier
+// that is still waiting for its answer
+func harnessC39OwnConcurrent() {
+	t := c39Transit()
+	P1, P2, P3 := c16Peer(0), c16Peer(1), c16Peer(2)
+	for _, p := range []identity.AgentID{P1, P2, P3} {
+		t.routeMgr.AgentTable().AddRoute(&routing.AgentRoute{AgentID: p, NextHop: p, OriginAgent: p, Metric: 1, Path: []identity.AgentID{p}, Sequence: 1})
+	}
+	c16Log = nil
+	c16StallTo, c16Stall = P1, make(chan struct{})
+	var ry, rz *protocol.ControlResponse
+	var errx error
+	ctx := context.Background()
+	go func() { _, errx = t.SendControlRequestWithData(ctx, P1, protocol.ControlTypeStatus, nil) }()
+	verif_drain() // X hangs in its send
+	go func() { ry, _ = t.SendControlRequestWithData(ctx, P2, protocol.ControlTypeStatus, nil) }()
+	verif_drain() // Y is sent and waits for P2
+	close(c16Stall)
+	verif_drain() // X's link drops: X fails
+	go func() { rz, _ = t.SendControlRequestWithData(ctx, P3, protocol.ControlTypeStatus, nil) }()
+	verif_drain() // Z is sent and waits for P3
+	c16Stall = nil
+	verif_reach("C39/own-concurrent")
+	verif_assert(errx != nil, "C39/failed-send-not-reported")
+	var idY, idZ uint64
+	n := 0
+	for _, s := range c16Log {
+		if s.f.Type != protocol.FrameControlRequest {
+			continue
+		}
+		req, err := protocol.DecodeControlRequest(s.f.Payload)
+		verif_assert(err == nil, "C39/request-does-not-decode")
+		if err != nil {
+			return
+		}
+		n++
+		if s.to == P2 {
+			idY = req.RequestID
+		}
+		if s.to == P3 {
+			idZ = req.RequestID
+		}
+	}
+	verif_assert(n == 2, "C39/requests-not-sent")
+	verif_assert(idY != idZ, "C39/request-identifier-reused-while-the-earlier-request-is-in-flight")
+	c39Response(t, P2, idY, 0xB2)
+	c39Response(t, P3, idZ, 0xC3)
+	verif_drain()
+	verif_assert(ry != nil && len(ry.Data) == 1 && ry.Data[0] == 0xB2, "C39/own-request-answered-by-foreign-response")
+	verif_assert(rz != nil && len(rz.Data) == 1 && rz.Data[0] == 0xC3, "C39/own-request-answered-by-foreign-response")
 }
